@@ -62,15 +62,15 @@ type LoopCtx struct {
 }
 
 type State struct {
-	decls  *node
-	heap   map[string]string
-	ghost  map[string]string
-	vals   map[ssa.Value]Val
-	locs   map[ssa.Value]*Loc
-	active map[*Loop]*LoopCtx
-	alloc  string
-	trace  []string
-	depth  int
+	decls      *node
+	heap       map[string]string
+	ghost      map[string]string
+	vals       map[ssa.Value]Val
+	locs       map[ssa.Value]*Loc
+	active     map[*Loop]*LoopCtx
+	alloc      string
+	trace      []string
+	depth      int
 	frameID    int
 	frameDepth int
 	// call-frame linkage for inlined calls
